@@ -1,6 +1,8 @@
 package main
 
 import (
+	"runtime/debug"
+	"runtime/pprof"
 	"encoding/json"
 	"flag"
 	"fmt"
@@ -20,10 +22,13 @@ import (
 
 func ssautilAllFunctions(p *ssa.Program) map[*ssa.Function]bool { return ssautil.AllFunctions(p) }
 
+var exitHook = func() {}
+
 func main() {
 	if _, err := os.Stat("/opt/veriftools/go1.26.8/bin/go"); err == nil {
 		os.Setenv("PATH", "/opt/veriftools/go1.26.8/bin:"+os.Getenv("PATH"))
 	}
+	debug.SetGCPercent(600)
 	os.Setenv("GOFLAGS", "-mod=mod")
 	os.Setenv("GOPROXY", "off")
 	os.Setenv("GOTOOLCHAIN", "local")
@@ -31,9 +36,16 @@ func main() {
 		fmt.Fprintln(os.Stderr, "usage: gosym check -prop <id> -tier quick|thorough [-harness name]")
 		os.Exit(2)
 	}
+	if pp := os.Getenv("VERIF_PPROF"); pp != "" {
+		f, _ := os.Create(pp)
+		pprof.StartCPUProfile(f)
+		exitHook = func() { pprof.StopCPUProfile(); f.Close() }
+	}
 	switch os.Args[1] {
 	case "check":
-		os.Exit(cmdCheck(os.Args[2:]))
+		rc := cmdCheck(os.Args[2:])
+		exitHook()
+		os.Exit(rc)
 	default:
 		fmt.Fprintln(os.Stderr, "unknown command", os.Args[1])
 		os.Exit(2)
